@@ -1,7 +1,551 @@
-//! Implementation-side evaluator for the `dispatcher` correspondence checks (see props/).
+//! Implementation-side evaluator for the `dispatcher` correspondence checks (props/C10.py,
+//! C01.py, C02.py): steps the real `DispatcherContext::handle_event` through hook H2
+//! (`nextest_runner::runner::verif_dispatcher`) and calls the statistics functions through hook H3
+//! (`nextest_runner::reporter::events::verif_events`).
+use crate::common::*;
+use nextest_metadata::{FilterMatch, NextestExitCode, RustBinaryId, RustTestCaseSummary};
+use nextest_runner::{
+    config::MaxFail,
+    list::{RustTestSuite, RustTestSuiteStatus, TestInstance},
+    reporter::events::{
+        verif_run_stats::{self as verif_events, VerifAttempt},
+        AbortStatus, CancelReason, ExecutionResult, FinalRunStats, RunStats, RunStatsFailureKind,
+    },
+    runner::verif_dispatcher::{
+        VerifEmitted, VerifHandshake, VerifInput, VerifRequest, VerifResponse, VerifShutdown,
+        VerifState, VerifStepper,
+    },
+    runner::verif_dispatcher_loop,
+};
 use serde_json::{json, Value};
+use std::{
+    collections::{BTreeMap, BTreeSet},
+    panic::{catch_unwind, AssertUnwindSafe},
+    sync::OnceLock,
+};
+
+const MAX_TESTS: usize = 8;
+
+/// eight synthetic test instances: two binaries with four tests each
+fn instances() -> &'static Vec<TestInstance<'static>> {
+    static T: OnceLock<Vec<TestInstance<'static>>> = OnceLock::new();
+    T.get_or_init(|| {
+        let package = graph()
+            .metadata(&package_id("a"))
+            .expect("package in fixture graph");
+        let info: &'static RustTestCaseSummary = Box::leak(Box::new(RustTestCaseSummary {
+            ignored: false,
+            filter_match: FilterMatch::Matches,
+        }));
+        let mut out = Vec::new();
+        for b in 0..2 {
+            let suite: &'static RustTestSuite<'static> = Box::leak(Box::new(RustTestSuite {
+                binary_id: RustBinaryId::new(&format!("crate_a::bin{b}")),
+                binary_path: "/fake/binary".into(),
+                package,
+                binary_name: format!("bin{b}"),
+                kind: kind_of("lib"),
+                cwd: "/fake/cwd".into(),
+                build_platform: platform_of("target"),
+                non_test_binaries: BTreeSet::new(),
+                status: RustTestSuiteStatus::Listed {
+                    test_cases: BTreeMap::new().into(),
+                },
+            }));
+            for n in 0..MAX_TESTS / 2 {
+                let name: &'static str = Box::leak(format!("mod::test_{n}").into_boxed_str());
+                out.push(TestInstance {
+                    name,
+                    suite_info: suite,
+                    test_info: info,
+                });
+            }
+        }
+        out
+    })
+}
+
+fn u(v: &Value) -> usize {
+    v.as_u64().expect("number") as usize
+}
+
+fn b(v: &Value) -> bool {
+    match v {
+        Value::Bool(x) => *x,
+        other => other.as_u64().expect("bool or number") != 0,
+    }
+}
+
+/// [code, signal + 1 (0 = none), leaked]
+fn result_of(v: &Value) -> ExecutionResult {
+    match u(&v[0]) {
+        0 => ExecutionResult::Pass,
+        1 => ExecutionResult::Leak,
+        2 => ExecutionResult::Fail {
+            abort_status: match u(&v[1]) {
+                0 => None,
+                s => Some(AbortStatus::UnixSignal(s as i32 - 1)),
+            },
+            leaked: b(&v[2]),
+        },
+        3 => ExecutionResult::ExecFail,
+        4 => ExecutionResult::Timeout,
+        other => panic!("bad result code {other}"),
+    }
+}
+
+fn result_json(r: ExecutionResult) -> Value {
+    match r {
+        ExecutionResult::Pass => json!([0, 0, 0]),
+        ExecutionResult::Leak => json!([1, 0, 0]),
+        ExecutionResult::Fail {
+            abort_status,
+            leaked,
+        } => {
+            let s = match abort_status {
+                None => 0,
+                Some(AbortStatus::UnixSignal(s)) => s as i64 + 1,
+            };
+            json!([2, s, leaked as u8])
+        }
+        ExecutionResult::ExecFail => json!([3, 0, 0]),
+        ExecutionResult::Timeout => json!([4, 0, 0]),
+    }
+}
+
+/// [code, signal + 1, leaked, is_slow, attempt, total_attempts]
+fn attempt_of(v: &Value) -> VerifAttempt {
+    VerifAttempt {
+        result: result_of(v),
+        is_slow: b(&v[3]),
+        attempt: u(&v[4]),
+        total_attempts: u(&v[5]),
+    }
+}
+
+fn attempt_json(a: &VerifAttempt) -> Value {
+    let mut r = result_json(a.result).as_array().unwrap().clone();
+    r.push(json!(a.is_slow as u8));
+    r.push(json!(a.attempt));
+    r.push(json!(a.total_attempts));
+    Value::Array(r)
+}
+
+fn stats_of(v: &Value) -> RunStats {
+    let g = |i: usize| u(&v[i]);
+    RunStats {
+        initial_run_count: g(0),
+        finished_count: g(1),
+        setup_scripts_initial_count: g(2),
+        setup_scripts_finished_count: g(3),
+        setup_scripts_passed: g(4),
+        setup_scripts_failed: g(5),
+        setup_scripts_exec_failed: g(6),
+        setup_scripts_timed_out: g(7),
+        passed: g(8),
+        passed_slow: g(9),
+        flaky: g(10),
+        failed: g(11),
+        failed_slow: g(12),
+        timed_out: g(13),
+        leaky: g(14),
+        exec_failed: g(15),
+        skipped: g(16),
+    }
+}
+
+fn stats_json(s: &RunStats) -> Value {
+    json!([
+        s.initial_run_count,
+        s.finished_count,
+        s.setup_scripts_initial_count,
+        s.setup_scripts_finished_count,
+        s.setup_scripts_passed,
+        s.setup_scripts_failed,
+        s.setup_scripts_exec_failed,
+        s.setup_scripts_timed_out,
+        s.passed,
+        s.passed_slow,
+        s.flaky,
+        s.failed,
+        s.failed_slow,
+        s.timed_out,
+        s.leaky,
+        s.exec_failed,
+        s.skipped
+    ])
+}
+
+fn reason_of_rank(n: usize) -> CancelReason {
+    match n {
+        0 => CancelReason::SetupScriptFailure,
+        1 => CancelReason::TestFailure,
+        2 => CancelReason::ReportError,
+        3 => CancelReason::Signal,
+        4 => CancelReason::Interrupt,
+        5 => CancelReason::SecondSignal,
+        other => panic!("bad reason {other}"),
+    }
+}
+
+fn reason_name(r: CancelReason) -> &'static str {
+    match r {
+        CancelReason::SetupScriptFailure => "SetupScriptFailure",
+        CancelReason::TestFailure => "TestFailure",
+        CancelReason::ReportError => "ReportError",
+        CancelReason::Signal => "Signal",
+        CancelReason::Interrupt => "Interrupt",
+        CancelReason::SecondSignal => "SecondSignal",
+    }
+}
+
+fn opt_reason_json(r: Option<CancelReason>) -> Value {
+    match r {
+        None => Value::Null,
+        Some(r) => json!(reason_name(r)),
+    }
+}
+
+fn shutdown_of(s: &str) -> VerifShutdown {
+    match s {
+        "hup" => VerifShutdown::Hangup,
+        "term" => VerifShutdown::Term,
+        "quit" => VerifShutdown::Quit,
+        "int" => VerifShutdown::Interrupt,
+        other => panic!("bad shutdown signal {other}"),
+    }
+}
+
+fn shutdown_name(s: VerifShutdown) -> &'static str {
+    match s {
+        VerifShutdown::Hangup => "hup",
+        VerifShutdown::Term => "term",
+        VerifShutdown::Quit => "quit",
+        VerifShutdown::Interrupt => "int",
+    }
+}
+
+fn input_of(v: &Value) -> VerifInput {
+    match v[0].as_str().expect("event tag") {
+        "ss" => VerifInput::SetupScriptStarted { script: u(&v[1]) },
+        "sl" => VerifInput::SetupScriptSlow {
+            script: u(&v[1]),
+            will_terminate: b(&v[2]),
+        },
+        "sf" => VerifInput::SetupScriptFinished {
+            script: u(&v[1]),
+            result: result_of(&v[2]),
+        },
+        "st" => VerifInput::Started { test: u(&v[1]) },
+        "slow" => VerifInput::Slow {
+            test: u(&v[1]),
+            attempt: u(&v[2]),
+            total_attempts: u(&v[3]),
+            will_terminate: b(&v[4]),
+        },
+        "afwr" => VerifInput::AttemptFailedWillRetry {
+            test: u(&v[1]),
+            status: attempt_of(&v[2]),
+        },
+        "rs" => VerifInput::RetryStarted {
+            test: u(&v[1]),
+            attempt: u(&v[2]),
+            total_attempts: u(&v[3]),
+        },
+        "fin" => VerifInput::Finished {
+            test: u(&v[1]),
+            status: attempt_of(&v[2]),
+        },
+        "skip" => VerifInput::Skipped { test: u(&v[1]) },
+        "sig" => VerifInput::Shutdown(shutdown_of(v[1].as_str().unwrap())),
+        "stop" => VerifInput::Stop,
+        "cont" => VerifInput::Continue,
+        "infosig" => VerifInput::InfoSignal { usr1: b(&v[1]) },
+        "info" => VerifInput::InputInfo,
+        "enter" => VerifInput::InputEnter,
+        "rc" => VerifInput::ReportCancel,
+        other => panic!("bad event tag {other}"),
+    }
+}
+
+fn emitted_json(e: &VerifEmitted) -> Value {
+    match e {
+        VerifEmitted::SetupScriptStarted { script } => json!({"k": "SetupScriptStarted", "script": script}),
+        VerifEmitted::SetupScriptSlow {
+            script,
+            will_terminate,
+        } => json!({"k": "SetupScriptSlow", "script": script, "will_terminate": will_terminate}),
+        VerifEmitted::SetupScriptFinished { script, result } => {
+            json!({"k": "SetupScriptFinished", "script": script, "result": result_json(*result)})
+        }
+        VerifEmitted::TestStarted {
+            test,
+            stats,
+            running,
+            cancel_state,
+        } => json!({"k": "TestStarted", "test": test, "stats": stats_json(stats), "running": running,
+                    "cancel": opt_reason_json(*cancel_state)}),
+        VerifEmitted::TestSlow {
+            test,
+            attempt,
+            total_attempts,
+            will_terminate,
+        } => json!({"k": "TestSlow", "test": test, "attempt": attempt, "total": total_attempts,
+                    "will_terminate": will_terminate}),
+        VerifEmitted::TestAttemptFailedWillRetry { test, status } => {
+            json!({"k": "TestAttemptFailedWillRetry", "test": test, "status": attempt_json(status)})
+        }
+        VerifEmitted::TestRetryStarted {
+            test,
+            attempt,
+            total_attempts,
+        } => json!({"k": "TestRetryStarted", "test": test, "attempt": attempt, "total": total_attempts}),
+        VerifEmitted::TestFinished {
+            test,
+            statuses,
+            describe,
+            stats,
+            running,
+            cancel_state,
+        } => json!({"k": "TestFinished", "test": test,
+                    "statuses": statuses.iter().map(attempt_json).collect::<Vec<_>>(),
+                    "describe": describe, "stats": stats_json(stats), "running": running,
+                    "cancel": opt_reason_json(*cancel_state)}),
+        VerifEmitted::TestSkipped { test } => json!({"k": "TestSkipped", "test": test}),
+        VerifEmitted::RunBeginCancel {
+            setup_scripts_running,
+            running,
+            reason,
+        } => json!({"k": "RunBeginCancel", "scripts_running": setup_scripts_running, "running": running,
+                    "reason": reason_name(*reason)}),
+        VerifEmitted::RunBeginKill {
+            setup_scripts_running,
+            running,
+            reason,
+        } => json!({"k": "RunBeginKill", "scripts_running": setup_scripts_running, "running": running,
+                    "reason": reason_name(*reason)}),
+        VerifEmitted::RunPaused {
+            setup_scripts_running,
+            running,
+        } => json!({"k": "RunPaused", "scripts_running": setup_scripts_running, "running": running}),
+        VerifEmitted::RunContinued {
+            setup_scripts_running,
+            running,
+        } => json!({"k": "RunContinued", "scripts_running": setup_scripts_running, "running": running}),
+        VerifEmitted::InputEnter {
+            stats,
+            running,
+            cancel_state,
+        } => json!({"k": "InputEnter", "stats": stats_json(stats), "running": running,
+                    "cancel": opt_reason_json(*cancel_state)}),
+        VerifEmitted::Other(name) => json!({"k": "Other", "name": name}),
+    }
+}
+
+fn handshake_name(h: VerifHandshake) -> &'static str {
+    match h {
+        VerifHandshake::NoChannel => "none",
+        VerifHandshake::Accepted => "accepted",
+        VerifHandshake::Refused => "refused",
+    }
+}
+
+fn response_json(r: VerifResponse) -> Value {
+    match r {
+        VerifResponse::None => json!("none"),
+        VerifResponse::JobStop => json!("job_stop"),
+        VerifResponse::JobContinue => json!("job_continue"),
+        VerifResponse::InfoSignalUsr1 => json!("info_usr1"),
+        VerifResponse::InfoSignalInfo => json!("info_siginfo"),
+        VerifResponse::InfoInput => json!("info_input"),
+        VerifResponse::CancelReport => json!("cancel_report"),
+        VerifResponse::CancelTestFailure => json!("cancel_test_failure"),
+        VerifResponse::CancelSignalOnce(s) => json!(format!("cancel_signal_once:{}", shutdown_name(s))),
+        VerifResponse::CancelSignalTwice => json!("cancel_signal_twice"),
+    }
+}
+
+fn request_name(r: &VerifRequest) -> String {
+    match r {
+        VerifRequest::OtherCancel => "other_cancel".to_owned(),
+        VerifRequest::ShutdownOnce(s) => format!("shutdown_once:{}", shutdown_name(*s)),
+        VerifRequest::ShutdownTwice => "shutdown_twice".to_owned(),
+        VerifRequest::Stop => "stop".to_owned(),
+        VerifRequest::Continue => "continue".to_owned(),
+        VerifRequest::GetInfo => "get_info".to_owned(),
+    }
+}
+
+/// [[test index or null (setup script), [request names]], ...]
+fn received_json(r: &[(Option<usize>, Vec<VerifRequest>)]) -> Value {
+    Value::Array(
+        r.iter()
+            .map(|(key, reqs)| json!([key, reqs.iter().map(request_name).collect::<Vec<_>>()]))
+            .collect(),
+    )
+}
+
+fn state_json(s: &VerifState) -> Value {
+    json!({"stats": stats_json(&s.run_stats), "cancel": opt_reason_json(s.cancel_state),
+           "running": s.running, "scripts_running": s.setup_scripts_running,
+           "signal_count": s.signal_count, "paused": s.paused})
+}
+
+fn final_json(f: FinalRunStats) -> Value {
+    match f {
+        FinalRunStats::Success => json!([0]),
+        FinalRunStats::NoTestsRun => json!([1]),
+        FinalRunStats::Cancelled(RunStatsFailureKind::SetupScript) => json!([2]),
+        FinalRunStats::Cancelled(RunStatsFailureKind::Test {
+            initial_run_count,
+            not_run,
+        }) => json!([3, initial_run_count, not_run]),
+        FinalRunStats::Failed(RunStatsFailureKind::SetupScript) => json!([4]),
+        FinalRunStats::Failed(RunStatsFailureKind::Test {
+            initial_run_count,
+            not_run,
+        }) => json!([5, initial_run_count, not_run]),
+    }
+}
+
+fn ord_code(o: std::cmp::Ordering) -> u8 {
+    match o {
+        std::cmp::Ordering::Less => 0,
+        std::cmp::Ordering::Equal => 1,
+        std::cmp::Ordering::Greater => 2,
+    }
+}
 
 pub fn run(case: &Value) -> Value {
-    let _ = case;
-    json!({ "error": "not implemented" })
+    match case["op"].as_str().unwrap_or("") {
+        // step the real handle_event over a sequence of events
+        "seq" => {
+            let ntests = u(&case["ntests"]).min(MAX_TESTS);
+            let tests: Vec<TestInstance<'static>> = instances()[..ntests].to_vec();
+            let max_fail = match &case["max_fail"] {
+                Value::Null => None,
+                v => Some(u(v)),
+            };
+            let mut stepper =
+                VerifStepper::new(tests, u(&case["nscripts"]), u(&case["initial"]), max_fail);
+            let mut steps = Vec::new();
+            for ev in case["events"].as_array().expect("events") {
+                let input = input_of(ev);
+                match catch_unwind(AssertUnwindSafe(|| stepper.step(input))) {
+                    Ok(step) => steps.push(json!({
+                        "panic": false,
+                        "hs": handshake_name(step.handshake),
+                        "resp": response_json(step.response),
+                        "state": state_json(&step.state),
+                        "emitted": step.emitted.iter().map(emitted_json).collect::<Vec<_>>(),
+                        "received": received_json(&step.received),
+                    })),
+                    Err(e) => {
+                        let msg = e
+                            .downcast_ref::<String>()
+                            .cloned()
+                            .or_else(|| e.downcast_ref::<&str>().map(|s| s.to_string()))
+                            .unwrap_or_else(|| "panic".to_string());
+                        let hs = stepper.take_handshake();
+                        let msg: String = msg.chars().take(160).collect();
+                        steps.push(json!({"panic": true, "hs": handshake_name(hs), "msg": msg}));
+                        // the process would be gone: nothing is fed after a panic
+                        break;
+                    }
+                }
+            }
+            json!({ "steps": steps })
+        }
+        // the real DispatcherContext::run loop: executor events through its channel, the
+        // report-cancel oneshot, real shutdown signals raised at this process; what every live
+        // unit received on its request channel is read back after every input
+        "loop" => {
+            let ntests = u(&case["ntests"]).min(MAX_TESTS);
+            let tests: Vec<TestInstance<'static>> = instances()[..ntests].to_vec();
+            let max_fail = match &case["max_fail"] {
+                Value::Null => None,
+                v => Some(u(v)),
+            };
+            let inputs: Vec<VerifInput> = case["events"]
+                .as_array()
+                .expect("events")
+                .iter()
+                .map(input_of)
+                .collect();
+            match verif_dispatcher_loop::run_loop(
+                tests,
+                u(&case["nscripts"]),
+                u(&case["initial"]),
+                max_fail,
+                &inputs,
+            ) {
+                Err(e) => json!({ "error": e }),
+                Ok(steps) => json!({ "steps": steps.iter().map(|st| json!({
+                    "hs": handshake_name(st.handshake),
+                    "emitted": st.emitted.iter().map(emitted_json).collect::<Vec<_>>(),
+                    "received": received_json(&st.received),
+                    "loop_finished": st.loop_finished,
+                })).collect::<Vec<_>>() }),
+            }
+        }
+        // RunStats::on_test_finished + ExecutionStatuses::describe
+        "otf" => {
+            let mut stats = stats_of(&case["stats"]);
+            let attempts: Vec<VerifAttempt> = case["attempts"]
+                .as_array()
+                .unwrap()
+                .iter()
+                .map(attempt_of)
+                .collect();
+            verif_events::on_test_finished(&mut stats, &attempts);
+            json!({"stats": stats_json(&stats), "describe": verif_events::describe_code(&attempts),
+                   "failed_count": stats.failed_count()})
+        }
+        // RunStats::on_setup_script_finished
+        "osf" => {
+            let mut stats = stats_of(&case["stats"]);
+            verif_events::on_setup_script_finished(&mut stats, result_of(&case["result"]));
+            json!({"stats": stats_json(&stats),
+                   "failed_scripts": stats.failed_setup_script_count()})
+        }
+        // RunStats::summarize_final
+        "final" => final_json(stats_of(&case["stats"]).summarize_final()),
+        // derived Ord of CancelReason and of Option<CancelReason> (0 = None, k+1 = Some(rank k))
+        "cmp" => {
+            let (a, bb) = (u(&case["a"]), u(&case["b"]));
+            json!(ord_code(reason_of_rank(a).cmp(&reason_of_rank(bb))))
+        }
+        "cmpopt" => {
+            let f = |n: usize| if n == 0 { None } else { Some(reason_of_rank(n - 1)) };
+            json!(ord_code(f(u(&case["a"])).cmp(&f(u(&case["b"])))))
+        }
+        // MaxFail::is_exceeded
+        "maxfail" => {
+            let mf = match &case["mf"] {
+                Value::Null => MaxFail::All,
+                v => MaxFail::Count(u(v)),
+            };
+            json!(mf.is_exceeded(u(&case["failed"])))
+        }
+        // MaxFail::from_fail_fast / FromStr
+        "maxfail_parse" => {
+            use std::str::FromStr;
+            match MaxFail::from_str(case["s"].as_str().unwrap()) {
+                Ok(MaxFail::All) => json!("all"),
+                Ok(MaxFail::Count(n)) => json!(n),
+                Err(_) => json!("error"),
+            }
+        }
+        "fail_fast" => match MaxFail::from_fail_fast(b(&case["v"])) {
+            MaxFail::All => json!("all"),
+            MaxFail::Count(n) => json!(n),
+        },
+        // the exit-code constants the verdict is mapped to
+        "exitcodes" => json!({
+            "NO_TESTS_RUN": NextestExitCode::NO_TESTS_RUN,
+            "TEST_RUN_FAILED": NextestExitCode::TEST_RUN_FAILED,
+            "SETUP_SCRIPT_FAILED": NextestExitCode::SETUP_SCRIPT_FAILED,
+        }),
+        other => json!({ "error": format!("unknown op {other}") }),
+    }
 }
